@@ -1085,6 +1085,182 @@ class SnippetFileStream(Stream):
 
 
 # --------------------------------------------------------------------------
+# several copyright notations on one line: which of them is the notice
+
+
+# rank of a notation: the SPDX tag outranks the plain word, the plain word outranks the sign
+RANK = {"spdx": 3, "word": 2, "sign": 1, "neutral": 0}
+
+SPDX_TARGETS = ["SPDX-FileCopyrightText:", "SPDX-SnippetCopyrightText:", "SPDX-FileCopyrightText: (C)", "SPDX-FileCopyrightText: (c)",
+                "SPDX-SnippetCopyrightText: (C)", "SPDX-FileCopyrightText: ©", "SPDX-SnippetCopyrightText: ©", "SPDX-FileCopyrightText: Copyright",
+                "SPDX-FileCopyrightText: Copyright (C)", "SPDX-FileCopyrightText: Copyright ©", "SPDX-SnippetCopyrightText: Copyright (c)"]
+WORD_TARGETS = ["Copyright", "Copyright (C)", "Copyright (c)", "Copyright ©"]
+SIGN_TARGETS = ["©"]
+
+# text standing to the LEFT of the notice on the same line (a table cell, a few words of prose, a label); (rank, text, set off)
+# `set off` = the decoy ends in a separator or a word, so that it cannot be read as the beginning of the notice itself
+DECOYS = [
+    ("word", "Copyright notice:  ", True), ("word", "Copyright and licence -- ", True), ("word", "Copyright holder | ", True),
+    ("word", "Copyright (see AUTHORS): ", True), ("word", "Copyright\tnotice\t", True), ("word", "Copyright (c) notice: ", True),
+    ("word", "Copyright © holder: ", True), ("word", "Copyright of this snippet: ", True), ("word", "| Copyright | ", True),
+    ("word", "© Copyright notice: ", True), ("word", "Copyright © notice, see: ", True), ("word", "Copyright 2020 | ", True),
+    ("sign", "© see ", True), ("sign", "© | ", True), ("sign", "© notice: ", True), ("sign", "©  -- ", True), ("sign", "(c) © : ", True),
+    ("sign", "| © | ", True), ("sign", "© 2020: ", True), ("sign", "©\t", False), ("sign", "© ", False),
+    ("neutral", "(c) see: ", True), ("neutral", "(C) ", True), ("neutral", "Copyright: ", True), ("neutral", "Copyrights; ", True),
+    ("neutral", "Copyrighted material, ", True), ("neutral", "Copr. ", True), ("neutral", "notice: ", True), ("neutral", "©: ", True),
+    ("neutral", "©2020 ", True), ("neutral", "", True),
+]
+# holders that themselves mention a lower-ranking notation (to the RIGHT of the notice: part of the value); (highest rank inside, text)
+RIGHT_HOLDERS = [("word", "Jane Doe, Copyright holder"), ("word", "Jane Doe (Copyright 2019 Old Corp)"), ("word", "the Copyright Clearance Center"),
+                 ("sign", "ACME © dept"), ("sign", "Jane Doe (© 2019 Old Corp)"), ("sign", "Jane Doe ©")]
+
+
+def notation_targets():
+    return [("spdx", t) for t in SPDX_TARGETS] + [("word", t) for t in WORD_TARGETS] + [("sign", t) for t in SIGN_TARGETS]
+
+
+class NotationStream(Stream):
+    name = "notations"
+    rule = ("one physical line holding TWO copyright notations: a decoy to the left (31 texts: the word `Copyright ` / the sign `© ` / `(c)` "
+            "as a table cell, a label or a few words of prose - `# Copyright notice:  SPDX-FileCopyrightText: 2021 Jane Doe`, `| © | Copyright "
+            "2018 Bob`, `* (c) see: SPDX-...` -, or text that only looks like one: `Copyright:`, `©2020`) and the notice proper (16 prefixes: "
+            "SPDX-FileCopyrightText / SPDX-SnippetCopyrightText with and without (C) / © / Copyright, the word with and without (C) / ©, the "
+            "sign), 5 year forms, holders incl. holders that mention a lower-ranking notation to the RIGHT of the notice; every pair with "
+            "rank(decoy) < rank(notice) (SPDX tag > word > sign) in every (style, form) of the live table (sampled in the quick tier), "
+            "indentation, trailing blanks, LF / CRLF / CR, optionally a labelled licence line beside it; read with reuse_info_of_file, "
+            "extract_reuse_info and (sample) `reuse lint --json`. Reading demanded by the property text (`recognised with exactly the value "
+            "its author wrote ... the surrounding decoration never becomes part of the value`): the notice is the highest-ranking notation "
+            "of the line - an SPDX tag is the notice whatever words stand in front of it, the word `Copyright` is the notice when only a "
+            "sign stands in front of it - and its value runs from that notation to the end of the line less terminators; text to its "
+            "left is decoration. A decoy of the same or a higher rank than the notice is not generated (two notices on one line: not "
+            "decided by the property). non-trivial = distinct (decoy, prefix, form)")
+
+    def cases(self, tier, rng):
+        forms = style_forms()
+        targets = notation_targets()
+        exprs = expressions(rng, 12)
+        per = 6 if tier == "thorough" else 1
+
+        def mk(sname, form, f, decoy, target, holder=None, lint=False):
+            return {"style": sname, "form": form, "f": f, "decoy": decoy, "rank": target[0], "prefix": target[1], "y": rng.choice(YEARS),
+                    "h": holder or rng.choice(HOLDERS), "lead": rng.choice(["", "", "  ", "\t"]), "trail": rng.choice(["", "", " ", "\t"]),
+                    "eol": rng.choice(["\n", "\n", "\n", "\r\n", "\r"]), "lic": rng.choice([None, None] + exprs),
+                    "liclabel": rng.choice(["", "Licence:           ", "License | "]), "lint": lint}
+        nlint = 0
+        for di, (drank, dtext, setoff) in enumerate(DECOYS):
+            for target in targets:
+                if RANK[drank] >= RANK[target[0]]:
+                    continue
+                if not setoff and target[0] != "spdx":
+                    continue            # `© Copyright 2018 Bob`: the sign may be meant as part of the notice - not decided
+                for _ in range(per):
+                    sname, form, f = rng.choice(forms)
+                    lint = drank != "neutral" and nlint < (150 if tier == "thorough" else 24) and rng.random() < 0.08
+                    nlint += lint
+                    yield mk(sname, form, f, di, target, lint=lint)
+        # holders mentioning a lower-ranking notation, with and without a decoy
+        for hrank, h in RIGHT_HOLDERS:
+            for target in targets:
+                if RANK[hrank] >= RANK[target[0]]:
+                    continue
+                for _ in range(per):
+                    sname, form, f = rng.choice(forms)
+                    ds = [i for i, (r, _, so) in enumerate(DECOYS) if RANK[r] < RANK[target[0]] and (so or target[0] == "spdx")]
+                    yield mk(sname, form, f, rng.choice(ds), target, holder=h)
+        if tier == "thorough":
+            # every (style, form) with every decoy rank x notice rank pair
+            for sname, form, f in forms:
+                for target in targets:
+                    ds = [i for i, (r, _, so) in enumerate(DECOYS) if RANK[r] < RANK[target[0]] and (so or target[0] == "spdx")]
+                    for di in rng.sample(ds, min(3, len(ds))):
+                        yield mk(sname, form, f, di, target)
+
+    def build(self, case):
+        f, form, eol = case["f"], case["form"], case["eol"]
+        before, after = [], []
+        if form == "single":
+            base, close = case["lead"] + f["single"] + f["ias"], ""
+        elif form == "inline":
+            base, close = case["lead"] + f["start"] + " ", " " + f["end"]
+        elif form == "block":
+            before, after = [f["start"]], [f["ibe"] + f["end"]]
+            base, close = case["lead"] + f["ibm"] + f["middle"] + f["iam"], ""
+        else:
+            base, close = case["lead"], ""
+        decoy = DECOYS[case["decoy"]][1]
+        v = "%s %s%s" % (case["prefix"], (case["y"] + " ") if case["y"] else "", case["h"])
+        line = base + decoy + v + case["trail"] + close
+        lines = [line]
+        if case["lic"]:
+            lines.append(base + case["liclabel"] + LIC_TAG + " " + case["lic"] + close)
+        text = eol.join(before + lines + after) + eol
+        return {"text": text, "line": line, "v": v, "decoy": decoy}
+
+    def impl(self, case):
+        b = self.build(case)
+        data = b["text"].encode("utf-8")
+        out = impl_info_of_bytes(data)
+        if case["eol"] == "\n":
+            from reuse import extract
+            info = extract.extract_reuse_info(b["text"])
+            t = canon_info(info)
+            if t != out:
+                return "TEXT-FILE-DIFFER:%s:%s" % (t, out)
+        if case.get("lint"):
+            import cli
+            with cli.scratch("rv-c02n-") as d:
+                cli.write_tree(d, {"src/file.txt": data})
+                code, js, exc = cli.lint_json(d)
+                if exc is not None or js is None:
+                    return "EXC:lint:%r" % (exc,)
+                got = canon([], [], [])
+                for fobj in js.get("files", []):
+                    if fobj["path"].endswith("file.txt"):
+                        got = canon({e["value"] for e in fobj.get("spdx_expressions", [])}, {e["value"] for e in fobj.get("copyrights", [])}, [])
+                if got != out:
+                    return "LINT-FILE-DIFFER:%s:%s" % (got, out)
+        return out
+
+    def model_lines(self, case):
+        return model_infofile(self.build(case)["text"].encode("utf-8"))
+
+    def model_out(self, case, outs):
+        return model_info_out(outs[0])
+
+    def undecided(self, case, b):
+        v = b["v"]
+        f = case["f"]
+        if case["form"] in ("inline", "block") and f["end"] and v.rstrip(" \t").endswith(f["end"]):
+            return True
+        return False
+
+    def oracle(self, case, impl_out):
+        b = self.build(case)
+        if self.undecided(case, b):
+            return None
+        if impl_out.startswith(("EXC", "TEXT-FILE-DIFFER", "LINT-FILE-DIFFER")):
+            return "notations-crash: " + impl_out[:300]
+        want = canon({parse_expr(case["lic"])} if case["lic"] else [], [b["v"]], [])
+        if impl_out != want:
+            return ("notation-priority: line %r read as %s; the author's notice is %r (the highest-ranking notation of the line - SPDX tag, "
+                    "then the word, then the sign - is the notice; %r to its left is decoration)" % (
+                        b["line"], show_canon(impl_out), b["v"], b["decoy"]))
+        return None
+
+    def classify(self, case, failure):
+        if has_end_suffix(self.build(case)["v"]):
+            return "c02-foreign-terminator-tail"
+        return None
+
+    def nontrivial(self, case, impl_out):
+        return (case["decoy"], case["prefix"], case["form"])
+
+    def show(self, case):
+        b = self.build(case)
+        return {"style": case["style"], "form": case["form"], "line": b["line"], "planted": b["v"], "text": b["text"]}
+
+
+# --------------------------------------------------------------------------
 # unparseable expressions
 
 BAD_EXPRS = ["MIT AND", "(MIT", "MIT OR OR Apache-2.0", "GPL-2.0-only WITH", "MIT,", "MIT/X11", "Apache 2.0 (see LICENSE)", "AND", "MIT)"]
@@ -1298,7 +1474,7 @@ def table_roundtrip():
 def search(seed):
     """deeper search after a broken obligation / disagreement: the grid and the window at thorough size"""
     import random
-    for S in (GridStream(), WindowStream(), SnippetFileStream(), ParseErrorStream(), SmallEnumStream()):
+    for S in (GridStream(), NotationStream(), WindowStream(), SnippetFileStream(), ParseErrorStream(), SmallEnumStream()):
         rng = random.Random("search:%s:%d" % (S.name, seed))
         known = {f["key"] for f in __import__("core").load_known().get("findings", []) if f.get("property") == "C02"}
         for case in S.cases("thorough", rng):
@@ -1315,7 +1491,7 @@ def search(seed):
 PROPERTY = Property(
     pid="C02",
     streams=[CorpusStream(), textcorr.FindTagStream(), textcorr.CSearchStream(), textcorr.ExtractStream(), SmallEnumStream(), GridStream(), TheoremStream(), TextTieStream(),
-             LintStream(), WindowStream(), SnippetFileStream(), ParseErrorStream(), DecodeStream()],
+             LintStream(), WindowStream(), SnippetFileStream(), NotationStream(), ParseErrorStream(), DecodeStream()],
     assumptions=[
         "CPython's re engine on the tag patterns (`^(.*?)TAG[ \\t]+(.*?)END$`, MULTILINE, findall) and on the three copyright patterns is "
         "mirrored by Model.findSpdxTagWith / Model.searchLineWith over the END pattern generated from the source, and compared on every run",
